@@ -1,8 +1,9 @@
 (* C18  Layout that carries no meaning does not change the result.
    Only statements, [exact] and [Print Assumptions] live here. *)
 From Coq Require Import List Arith Bool NArith.
-From GV Require Import Base.Result Gen.TokenTypes Gen.Defs Model.Parser Spec.Layout
-  Proofs.C03.Bounded4 Proofs.C18.Bounded.
+From GV Require Import Base.Result Gen.TokenTypes Gen.Defs Model.Parser Spec.Layout Spec.LayoutSim
+  Proofs.C03.Bounded4 Proofs.C18.Bounded Proofs.C18.Sim Proofs.C18.Trim Proofs.C18.Main Proofs.C18.Settled
+  Proofs.C18.SettledBounded Proofs.C18.Summary.
 Import ListNotations.
 
 (* The parser model takes a list of token TYPES: the text of a whitespace run, of an
@@ -38,4 +39,135 @@ Example C18_ex :
   parse_tree [TT_Number; TT_PlusSign; TT_Number] <> None /\
   opt_gtree_eqb (parse_tree [TT_Number; TT_PlusSign; TT_Number])
                 (parse_tree [TT_Number; TT_MultiplicationSign; TT_Number]) = false.
+Proof. vm_compute. repeat split; try reflexivity; discriminate. Qed.
+
+(* ------------------------------------------------------------------------------------
+   Unbounded part: trivia next to trivia, for EVERY token list (induction over the main
+   loop; no bound on the length, no restriction of the alphabet).
+
+   [trivia_runs_equivalent_at pre post] (Spec/LayoutSim.v): for all non-empty runs d, d'
+   of whitespace / annotation / line-annotation tokens that both contain a whitespace
+   token or both contain none,
+     opt_gtree_eqb (parse_tree (pre ++ d ++ post)) (parse_tree (pre ++ d' ++ post)) = true
+   -- same acceptance and the same tree modulo token indices.  [has_sig l]: l has a token
+   that trim_tokens keeps (the gap is not at either end of the program; at the ends an
+   annotation shields a blank-line separator from trimming, see the examples below). *)
+
+(* the parser's main loop cannot tell token indices apart: related states stay related *)
+Theorem C18_step_ignores_token_indices : forall n i n' i' tok st st',
+  eq_mod_tok st st' -> Nat.leb n (i + 1) = Nat.leb n' (i' + 1) ->
+  res_eq_mod_tok (step n i tok st) (step n' i' tok st').
+Proof. exact step_congr. Qed.
+Print Assumptions C18_step_ignores_token_indices.
+
+(* whitespace and blank-line separators at either end of the program are ignored *)
+Theorem C18_trim_ends : forall a s b : list token_type,
+  has_sig a = false -> has_sig b = false -> parse_tree (a ++ s ++ b) = parse_tree s.
+Proof. exact parse_tree_trim_ends. Qed.
+Print Assumptions C18_trim_ends.
+
+(* general form: the gap starts in a state where the "finished side-effect block"
+   adjustment of last_left has settled (Spec/LayoutSim.v [settled_after]) *)
+Theorem C18_trivia_runs_equivalent : forall pre post : list token_type,
+  has_sig pre = true -> has_sig post = true -> settled_after (drop_while_trim pre) ->
+  trivia_runs_equivalent_at pre post.
+Proof. exact trivia_runs_equivalent. Qed.
+Print Assumptions C18_trivia_runs_equivalent.
+
+(* that hypothesis holds, for every prefix, unless the last token before the gap that is
+   not trivia or a blank-line separator is the end of a side-effect block *)
+Theorem C18_settled_unless_block_end : forall pre : list token_type,
+  not_after_block_end pre = true -> settled_after pre.
+Proof. exact settled_unless_block_end. Qed.
+Print Assumptions C18_settled_unless_block_end.
+
+Theorem C18_trivia_runs_equivalent_unless_block_end : forall pre post : list token_type,
+  has_sig pre = true -> has_sig post = true -> not_after_block_end pre = true ->
+  trivia_runs_equivalent_at pre post.
+Proof. exact trivia_runs_equivalent_unless_block_end. Qed.
+Print Assumptions C18_trivia_runs_equivalent_unless_block_end.
+
+(* right after a side-effect block: every prefix of at most six tokens over the block
+   alphabet / four tokens over the representative alphabet (enumeration of the settled
+   condition only); what follows the gap is arbitrary *)
+Theorem C18_trivia_runs_equivalent_prefix_6_block : forall pre post : list token_type,
+  length pre <= 6 -> (forall t, In t pre -> In t block_alphabet) ->
+  has_sig pre = true -> has_sig post = true -> trivia_runs_equivalent_at pre post.
+Proof. exact trivia_runs_equivalent_prefix_6_block. Qed.
+Print Assumptions C18_trivia_runs_equivalent_prefix_6_block.
+
+Theorem C18_trivia_runs_equivalent_prefix_4_rep : forall pre post : list token_type,
+  length pre <= 4 -> (forall t, In t pre -> In t rep_alphabet) ->
+  has_sig pre = true -> has_sig post = true -> trivia_runs_equivalent_at pre post.
+Proof. exact trivia_runs_equivalent_prefix_4_rep. Qed.
+Print Assumptions C18_trivia_runs_equivalent_prefix_4_rep.
+
+(* the named rewrites: an annotation (or comment line) next to whitespace is invisible *)
+Theorem C18_annotation_next_to_whitespace : forall (pre post : list token_type) (a : token_type),
+  has_sig pre = true -> has_sig post = true -> settled_after (drop_while_trim pre) ->
+  is_annotation_tok a = true ->
+  opt_gtree_eqb (parse_tree (pre ++ [TT_Whitespace] ++ post))
+                (parse_tree (pre ++ [TT_Whitespace; a; TT_Whitespace] ++ post)) = true /\
+  opt_gtree_eqb (parse_tree (pre ++ [TT_Whitespace] ++ post))
+                (parse_tree (pre ++ [a; TT_Whitespace] ++ post)) = true /\
+  opt_gtree_eqb (parse_tree (pre ++ [TT_Whitespace] ++ post))
+                (parse_tree (pre ++ [TT_Whitespace; a] ++ post)) = true.
+Proof. exact annotation_next_to_whitespace. Qed.
+Print Assumptions C18_annotation_next_to_whitespace.
+
+(* ... and any number of adjacent whitespace tokens behaves as one *)
+Theorem C18_whitespace_repetition : forall (pre post : list token_type) (k : nat),
+  has_sig pre = true -> has_sig post = true -> settled_after (drop_while_trim pre) ->
+  opt_gtree_eqb (parse_tree (pre ++ [TT_Whitespace] ++ post))
+                (parse_tree (pre ++ repeat TT_Whitespace (S k) ++ post)) = true.
+Proof. exact whitespace_repetition. Qed.
+Print Assumptions C18_whitespace_repetition.
+
+(* full statement for gaps that already hold trivia (no settled hypothesis): NOT proved;
+   what is missing is the settled condition right after the end of a side-effect block
+   for prefixes beyond the two enumerations above *)
+Definition C18_trivia_runs_full_statement : Prop := C18_trivia_runs_statement.
+
+(* non-vacuity.  `(5+a) 7 (b,3)`: 13 tokens, two groups, a space list of three items.  The
+   hypotheses of the unbounded theorem hold at its first gap, the program is accepted, and
+   the theorem's conclusion is the concrete fact that a comment in that gap is invisible *)
+Definition ex_pre : list token_type :=
+  [TT_StartGroup; TT_Number; TT_PlusSign; TT_Identifier; TT_EndGroup].
+Definition ex_post : list token_type :=
+  [TT_Number; TT_Whitespace; TT_StartGroup; TT_Identifier; TT_Comma; TT_Number; TT_EndGroup].
+Example C18_ex_unbounded_hypotheses :
+  has_sig ex_pre = true /\ has_sig ex_post = true /\ not_after_block_end ex_pre = true /\
+  trivia_run [TT_Whitespace; TT_LineAnnotation; TT_Whitespace] = true /\
+  parse_tree (ex_pre ++ [TT_Whitespace] ++ ex_post) <> None /\
+  (exists l x r, parse_tree (ex_pre ++ [TT_Whitespace] ++ ex_post) = Some (GN D_List (GN D_List l x) r)).
+Proof.
+  vm_compute. repeat split; try reflexivity; try discriminate.
+  eexists _, _, _. reflexivity.
+Qed.
+Example C18_ex_unbounded_instance :
+  opt_gtree_eqb (parse_tree (ex_pre ++ [TT_Whitespace] ++ ex_post))
+                (parse_tree (ex_pre ++ [TT_Whitespace; TT_LineAnnotation; TT_Whitespace] ++ ex_post)) = true.
+Proof.
+  apply C18_trivia_runs_equivalent_unless_block_end; reflexivity.
+Qed.
+(* a gap right after a side-effect block, through the general theorem: `5 [1] 7 (2)` *)
+Example C18_ex_after_block :
+  settled_after (drop_while_trim [TT_Number; TT_Whitespace; TT_StartSideEffect; TT_Number; TT_EndSideEffect]) /\
+  not_after_block_end [TT_Number; TT_Whitespace; TT_StartSideEffect; TT_Number; TT_EndSideEffect] = false /\
+  parse_tree ([TT_Number; TT_Whitespace; TT_StartSideEffect; TT_Number; TT_EndSideEffect] ++ [TT_Whitespace]
+              ++ [TT_Number; TT_Whitespace; TT_StartGroup; TT_Number; TT_EndGroup]) <> None.
+Proof. vm_compute. repeat split; try reflexivity; discriminate. Qed.
+(* the comparison is discriminating: replacing the whitespace by an annotation alone (a
+   run of the other kind) or removing it is NOT covered and does change the outcome; and
+   at the end of the program an annotation is not transparent (it shields the blank-line
+   separator from trim_tokens) -- hence the has_sig hypotheses *)
+Example C18_ex_discriminating :
+  opt_gtree_eqb (parse_tree (ex_pre ++ [TT_Whitespace] ++ ex_post))
+                (parse_tree (ex_pre ++ [TT_Annotation] ++ ex_post)) = false /\
+  opt_gtree_eqb (parse_tree (ex_pre ++ [TT_Whitespace] ++ ex_post))
+                (parse_tree (ex_pre ++ ex_post)) = false /\
+  has_ws [TT_Whitespace] <> has_ws [TT_Annotation] /\
+  opt_gtree_eqb (parse_tree [TT_Number; TT_Subexpression; TT_Whitespace])
+                (parse_tree [TT_Number; TT_Subexpression; TT_Whitespace; TT_Annotation]) = false /\
+  has_sig [] = false.
 Proof. vm_compute. repeat split; try reflexivity; discriminate. Qed.
